@@ -220,6 +220,7 @@ func runSource(src bstream.Source, w *missWatch) string {
 	select {
 	case <-src.Terminated():
 	case <-time.After(20 * time.Second):
+		fsHangs++
 		return "hang"
 	}
 	return classifyFS(src.Err(), waitBase)
@@ -233,7 +234,14 @@ type fsCase struct {
 	delays          bool
 }
 
+// fsHangs counts sources that did not end within the watchdog: after five of them the remaining cases of the run are
+// skipped (each costs 20 s; the hangs already recorded are reported with their replays)
+var fsHangs int
+
 func runFileSrcCase(o *Out, c fsCase) {
+	if fsHangs >= 5 {
+		return
+	}
 	fa := "-"
 	if c.failAt >= 0 {
 		fa = fmt.Sprint(c.failAt)
